@@ -9,7 +9,7 @@ import z3
 
 from ..pyvc.core import Contract, Exit, LoopSpec, Conc, Z, TupV, ObjV, fresh
 from ..pyvc.toktheory import (N, LEXFAIL, tokat, isWSC, isParam, isEndStmt, isDelim, isBegin, memcf, AGGKEYS,
-                              GRPKEYS, OBJKEYS, casefold, sub, rem_of, S, I, B)
+                              GRPKEYS, OBJKEYS, casefold, sub, rem_of, S, I, B, DOC)
 from ..pyvc.objtheory import cnt, rfind, find, lit
 
 P = "pvl.parser."
@@ -291,9 +291,23 @@ def SPECS():
             Exit("ParseError", post=lambda pre, post, a, r: [wf(pre, post)]),
             lexerror()])
 
+    def empty_value_post(pre, post, a, r):
+        d = pre.get("self.doc") or post.get("self.doc")
+        doc = d.t if d is not None else DOC
+        line = cnt(doc, lit("\n"), z3.IntVal(0), rfind(doc, lit("="), z3.IntVal(0), a["pos"].t)) + 1
+        out = [("stream-untouched", unchanged(pre, post))]
+        ln = getattr(r, "info", {}).get("lineno") if hasattr(r, "info") else None
+        if ln is not None:
+            out.append(("placeholder-lineno-is-line-of-the-last-equals-before-pos", ln.t == line))
+            last = post.th.get("self.errors_last")
+            out.append(("that-line-is-appended-to-errors", z3.BoolVal(last is not None) if last is None else last.t == line))
+            if pre.get("self.errors_n") is not None and post.get("self.errors_n") is not None:
+                out.append(("exactly-one-error-recorded", post.th["self.errors_n"] == pre.th["self.errors_n"] + 1))
+        return out
+
     sp["_empty_value"] = dict(
         params={"pos": "int"}, pure=True,
-        exits=[Exit("return", res="val", post=lambda pre, post, a, r: [("stream-untouched", unchanged(pre, post))])])
+        exits=[Exit("return", res="val", post=empty_value_post)])
 
     sp["parse"] = dict(
         params={"s": "str"},
